@@ -151,6 +151,7 @@ class FakeStream(trio.abc.HalfCloseableStream):
             if not data:
                 await trio.lowlevel.cancel_shielded_checkpoint()
                 return
+            parked = False
             while True:
                 if self.closed:
                     raise trio.ClosedResourceError("another task closed this socket")
@@ -168,6 +169,7 @@ class FakeStream(trio.abc.HalfCloseableStream):
                     raise trio.BrokenResourceError("socket connection broken: [Errno 32] Broken pipe")
                 if not self.peer_paused:
                     break
+                parked = True
                 await self._send_lot.park()
             data = bytes(data)
             if not self.world.finished:
@@ -176,7 +178,8 @@ class FakeStream(trio.abc.HalfCloseableStream):
                 cl = self.rec.client
                 if cl is not None:
                     cl.on_server_bytes(data, self.world.now())
-            await trio.lowlevel.cancel_shielded_checkpoint()
+            if not parked:  # trio's _nonblocking_helper: after wait_writable the retry returns without yielding again
+                await trio.lowlevel.cancel_shielded_checkpoint()
         finally:
             self._sending = False
 
@@ -207,20 +210,24 @@ class FakeStream(trio.abc.HalfCloseableStream):
             if self.closed:
                 raise trio.ClosedResourceError("this socket was already closed")
             await trio.lowlevel.checkpoint_if_cancelled()
+            parked = False  # after wait_readable the retried recv returns without yielding again (as real trio)
             while True:
                 if self.closed:
                     raise trio.ClosedResourceError("another task closed this socket")
                 if self.inbox:
                     data = bytes(self.inbox[:max_bytes])
                     del self.inbox[:max_bytes]
-                    await trio.lowlevel.cancel_shielded_checkpoint()
+                    if not parked:
+                        await trio.lowlevel.cancel_shielded_checkpoint()
                     return data
                 if self.terminal == "eof":
-                    await trio.lowlevel.cancel_shielded_checkpoint()
+                    if not parked:
+                        await trio.lowlevel.cancel_shielded_checkpoint()
                     return b""
                 if isinstance(self.terminal, BaseException):
                     self.broken = True
                     raise trio.BrokenResourceError(f"socket connection broken: {self.terminal}")
+                parked = True
                 await self._recv_lot.park()
         finally:
             self._receiving = False
